@@ -57,6 +57,23 @@ struct Scenario {
     std::function<void(S &)> release;                       // releases what the call handed out (success or failure), via documented functions
 };
 
+// Known findings (recorded in KNOWN_FINDINGS.jsonl): (function scenario, allocator side) pairs in which a single failed allocation is not
+// handled.  Generated runs skip these pairs (counted); their witnesses are replayed with strict=1.
+struct Known { const char *id; const char *scenario; int side; /*0 library, 1 storage engine*/ };
+static const Known KNOWN[] = {
+    {"F-OOM-CRASH", "cif_value_clone(new)", 0}, {"F-OOM-CRASH", "cif_value_clone(into existing)", 0}, {"F-OOM-CRASH", "cif_value_insert_element_at", 0},
+    {"F-OOM-CRASH", "cif_value_set_element_at", 0}, {"F-OOM-CRASH", "cif_value_set_item_by_key(new)", 0}, {"F-OOM-CRASH", "cif_value_set_item_by_key(existing, respelled)", 0},
+    {"F-OOM-CRASH", "cif_packet_create", 0}, {"F-OOM-CRASH", "cif_packet_set_item(new)", 0}, {"F-OOM-CRASH", "cif_packet_set_item(existing, respelled)", 0},
+    {"F-OOM-CRASH", "cif_parse(syntax only)", 0}, {"F-OOM-CRASH", "cif_parse(new cif)", 0}, {"F-OOM-CRASH", "cif_parse(into existing)", 0}, {"F-OOM-CRASH", "cif_pktitr_next_packet(new)", 0},
+    {"F-OOM-CRASH", "cif_pktitr_next_packet(reuse)", 0}, {"F-OOM-CRASH", "cif_loop_get_packets", 0}, {"F-OOM-CRASH", "cif_walk", 0}, {"F-OOM-CRASH", "cif_write(2.0)", 0}, {"F-OOM-CRASH", "cif_write(1.1)", 0},
+    {"F-OOM-LEAK", "cif_container_get_all_loops", 0}, {"F-OOM-LEAK", "cif_loop_get_names", 0}, {"F-OOM-LEAK", "cif_loop_set_category", 1},
+    {"F-OOM-CODE", "cif_container_get_value(scalar)", 0}, {"F-OOM-CODE", "cif_container_get_value(scalar)", 1}, {"F-OOM-CODE", "cif_container_get_value(looped)", 0},
+    {"F-OOM-CODE", "cif_container_get_value(looped)", 1}, {"F-OOM-CODE", "cif_pktitr_next_packet(new)", 1}, {"F-OOM-CODE", "cif_pktitr_next_packet(reuse)", 1},
+    {"F-OOM-SQLITE-TX", "cif_walk", 1}, {"F-OOM-SQLITE-TX", "cif_write(2.0)", 1}, {"F-OOM-SQLITE-TX", "cif_write(1.1)", 1}, {"F-OOM-SQLITE-TX", "cif_loop_get_packets", 1}, {"F-OOM-SQLITE-TX", "cif_pktitr_abort", 1},
+    {"F-OOM-SQLITE-PARTIAL", "cif_container_get_all_loops", 1}, {"F-OOM-SQLITE-PARTIAL", "cif_loop_get_names", 1},
+};
+static const char *known_id(const char *scenario, int side) { for (auto &k : KNOWN) if (k.side == side && strcmp(k.scenario, scenario) == 0) return k.id; return nullptr; }
+
 static Value pv(const std::string &s) { Value v; if (!cm::parse_value(s, v)) v = Value::chr(u"x"); return v; }
 static const UChar *U(const char16_t *s) { return (const UChar *) s; }
 
@@ -65,7 +82,7 @@ static bool fixture(S &s, const Params &p, int needs) {
     if (!(needs & 1)) return true;
     UChar *n3[] = {(UChar *) u"_l1", (UChar *) u"_l2", (UChar *) u"_l3", nullptr};
     if (cif_create(&s.cif) != CIF_OK || cif_create_block(s.cif, U(u"b"), &s.blk) != CIF_OK) return false;
-    cif_value_tp *v = nullptr; Value comp = pv(p.v2);
+    cif_value_tp *v = nullptr; Value comp = (needs & 256) ? Value::chr(u"a plain\nmulti-line string with 'quotes'") : pv(p.v2);   // 256: no composite values (CIF 1.1 output)
     if (cm::to_cif(comp, &v) != CIF_OK) return false;
     bool ok = cif_container_set_value(s.blk, U(u"_s1"), v) == CIF_OK && cif_container_set_value(s.blk, U(u"_s2"), nullptr) == CIF_OK
               && cif_container_create_loop(s.blk, U(u"c"), n3, &s.loop) == CIF_OK && cif_packet_create(&s.pkt, n3) == CIF_OK;
@@ -196,14 +213,18 @@ static std::string snapshot(S &s) {
     return o;
 }
 
+static long g_fail_k = 0;   // fault index at which the last failing run_case stopped (recorded into the replay case)
 static std::string run_case(const CaseFile &c) {
     install_sqlite_hook();
+    g_fail_k = 0;
     size_t idx = (size_t) c.geti("scenario") % scenarios().size();
     const Scenario &sc = scenarios()[idx];
     Params p; p.a = c.geti("a"); p.b = c.geti("b"); p.v1 = c.get("v1"); p.v2 = c.get("v2"); p.doc = c.get("doc");
     bool sqlite_side = c.geti("sqlite") != 0;
     long only_k = c.geti("k", 0);        // replay of one fault point
     label(std::string("fn:") + sc.name);
+    if (const char *kid = known_id(sc.name, sqlite_side ? 1 : 0)) if (!c.geti("strict")) { count_excluded(kid); label(std::string("excluded:") + kid); return ""; }
+    const bool is_parse = strncmp(sc.name, "cif_parse", 9) == 0;   // cif_parse is documented to possibly leave a modified target behind on failure
     if (getenv("VERIF_C17_SHOW")) fprintf(stderr, "scenario %zu = %s\n", idx, sc.name);
     CaseGuard guard;
     std::string msg;
@@ -225,8 +246,10 @@ static std::string run_case(const CaseFile &c) {
     note(sqlite_side ? "fault_points_sqlite" : "fault_points_library", only_k ? 1 : n);
     if (n_lib >= 2) nontrivial(fnv(std::string(sc.name) + c.get("v1") + c.get("v2") + c.get("doc") + (sqlite_side ? "S" : "L")));
     // 2. one run per allocation, that allocation failing
+    long last_k = 0;
     for (long k = 1; k <= n && msg.empty(); k++) {
         if (only_k && k != only_k) continue;
+        last_k = k;
         S s; if (!prepare(s, sc, p)) { msg = "fixture could not be rebuilt"; break; }
         std::string pre = (sc.needs & 2) ? std::string() : snapshot(s);
         if (sqlite_side) { g_sq_count = 0; g_sq_fired = false; g_sq_fail_at = k; } else verif_fail_at(k);
@@ -253,6 +276,10 @@ static std::string run_case(const CaseFile &c) {
         if (!(sc.needs & 2)) {
             // caller-owned objects still valid (readable, and released normally below); the managed CIF consistent and unchanged
             std::string post = snapshot(s);
+            if (is_parse) { /* exempt: "In the event of a failure ... the provided CIF object may still be modified" (cif.h) */
+                if (cif_part(post).find("<dump failed") != std::string::npos) msg = at + "failed with " + cm::code_name(rc) + " and left the target CIF unreadable";
+                continue;
+            }
             if (cif_part(post) != cif_part(pre)) msg = at + "failed with " + cm::code_name(rc) + " but the managed CIF is no longer what it was\n--- before\n" + cif_part(pre) + "\n--- after\n" + cif_part(post);
             else if (!objects_readable(post)) msg = at + "failed with " + cm::code_name(rc) + " and left a caller-owned object unreadable: " + post.substr(post.find('\x01') + 1);
             // 3. retry with memory available: behaves like the fault-free run
@@ -270,8 +297,9 @@ static std::string run_case(const CaseFile &c) {
             Doc d; int dr = cm::dump(s.cif, d);
             if (dr != CIF_OK) msg = at + "afterwards the CIF cannot be read: " + cm::code_name(dr);
         }
-        if (!msg.empty()) { CaseFile w = c; w.seti("k", k); record_fail(w, msg); }
+        last_k = k;
     }
+    if (!msg.empty() && last_k && !only_k && msg.find("allocation #") != std::string::npos) g_fail_k = last_k;
     if (msg.empty()) msg = guard.check();
     return msg;
 }
@@ -285,7 +313,7 @@ int main(int argc, char **argv) {
             { cif_tp *w = nullptr; if (cif_create(&w) == CIF_OK) (void) cif_destroy(w); }
             for (size_t i = 0; i < scenarios().size(); i++) for (int side = 0; side < 2; side++) {
                 CaseFile c; c.seti("scenario", (long) i); c.seti("a", 1); c.seti("b", 1); c.set("v1", "L[C1\"x\",T{\"k\":C1\"y\"}]"); c.set("v2", "T{\"a\":L[C1\"p\",N0\"1.5(2)\"],\"b\":C1\"q\"}");
-                c.set("doc", "#\\#CIF_2.0\ndata_parsed\n_p1 'v'\n_p2\n;text\nfield\n;\nloop_ _q1 _q2 1 [a {'k':v}] 2 ?\nsave_fr _f 1 save_\n"); c.seti("sqlite", side);
+                c.set("doc", "#\\#CIF_2.0\ndata_parsed\n_p1 'v'\n_p2\n;text\nfield\n;\nloop_ _q1 _q2 1 [a {'k':v}] 2 ?\nsave_fr _f 1 save_\n"); c.seti("sqlite", side); c.seti("strict", 1);
                 begin_case(c);
                 pid_t pid = fork();
                 if (pid == 0) { std::string m = run_case(c); printf("SURVEY %-45s %-8s %s\n", scenarios()[i].name, side ? "sqlite" : "library", m.empty() ? "ok" : m.substr(0, 160).c_str()); fflush(stdout); _exit(0); }
@@ -307,10 +335,14 @@ int main(int argc, char **argv) {
             VH_BEGIN(c);
             sample(std::string(scenarios()[(size_t) idx].name) + (c.geti("sqlite") ? " [storage-engine faults]" : " [library faults]"));
             std::string m = run_case(c);
-            if (!m.empty()) { if (m.find("allocation #") == std::string::npos) record_fail(c, m); RC_FAIL(m); }
+            if (!m.empty()) { CaseFile w = c; if (g_fail_k) w.seti("k", g_fail_k); record_fail(w, m); RC_FAIL(m); }
         });
     };
     e.replay = run_case;
-    e.classify = [](const CaseFile &) { return std::string(); };
+    e.classify = [](const CaseFile &c) {
+        size_t idx = (size_t) c.geti("scenario") % scenarios().size();
+        const char *kid = known_id(scenarios()[idx].name, c.geti("sqlite") ? 1 : 0);
+        return kid ? std::string(kid) : std::string();
+    };
     return engine_main(argc, argv, e);
 }
